@@ -27,4 +27,11 @@ for pf in dirs:
         print(name, pid, "rc=%d" % c.returncode, viol[:2], c.stderr.strip().split("\n")[-1][:200])
     finally:
         subprocess.run(["git", "-C", "/repo", "checkout", "--", "."])
-json.dump(out, open(os.path.join(V, "seeded", "last_results.json"), "w"), indent=1)
+# merge into the results of earlier runs (one entry per seeded change)
+rp = os.path.join(V, "seeded", "last_results.json")
+try:
+    allres = json.load(open(rp))
+except Exception:
+    allres = {}
+allres.update(out)
+json.dump(allres, open(rp, "w"), indent=1, sort_keys=True)
